@@ -199,6 +199,34 @@ impl OutstandingMessageTracker {
     }
 }
 
+#[cfg(deltio_verif)]
+impl OutstandingMessageTracker {
+    /// The deliveries in the map as `(ack id, message id, deadline)`, sorted by ack id.
+    pub fn verif_leases(&self) -> Vec<(u64, u64, Instant)> {
+        let mut leases = self
+            .messages
+            .values()
+            .map(|m| {
+                (
+                    m.ack_id().verif_value(),
+                    m.message().id.value,
+                    m.deadline().time(),
+                )
+            })
+            .collect::<Vec<_>>();
+        leases.sort();
+        leases
+    }
+
+    /// The expiry schedule as `(deadline, ack id)`, in order.
+    pub fn verif_expirations(&self) -> Vec<(Instant, u64)> {
+        self.expirations
+            .iter()
+            .map(|(deadline, ack_id)| (deadline.time(), ack_id.verif_value()))
+            .collect()
+    }
+}
+
 #[cfg(test)]
 mod tests {
     use super::*;
